@@ -290,7 +290,7 @@ func (ch *channel) addChunkData(rsd recSegData) {
 
 func (ch *channel) receivedSegData(rsd recSegData) {
 	log := slog.Default().With("chName", ch.name, "trName", rsd.name, "seqNr", rsd.seqNr)
-	if _, ok := ch.trDatas[rsd.name]; !ok {
+	if _, ok := ch.getTrData(rsd.name); !ok {
 		log.Error("received segData for unknown track")
 		return
 	}
@@ -395,6 +395,26 @@ func (ch *channel) addTrData(rd *trData) {
 	ch.mu.Unlock()
 }
 
+// getTrData returns the track data for a track name, if known.
+func (ch *channel) getTrData(name string) (*trData, bool) {
+	ch.mu.RLock()
+	defer ch.mu.RUnlock()
+	trd, ok := ch.trDatas[name]
+	return trd, ok
+}
+
+// getOrAddRawTrData returns the track data for a raw-received track, creating it if needed.
+func (ch *channel) getOrAddRawTrData(name string) (trD *trData, isNew bool) {
+	ch.mu.Lock()
+	defer ch.mu.Unlock()
+	trD, ok := ch.trDatas[name]
+	if !ok {
+		trD = &trData{name: name}
+		ch.trDatas[name] = trD
+	}
+	return trD, !ok
+}
+
 func extractVideoData(stsd *mp4.StsdBox, rep *m.RepresentationType) error {
 	vse, ok := stsd.Children[0].(*mp4.VisualSampleEntryBox)
 	if !ok {
@@ -482,6 +502,8 @@ func (ch *channel) updateAndWriteMPD(log *slog.Logger) error {
 // deriveAndSetBitrates estimates bitrates for variants without bitrate information.
 // Only count unshifted or shifted segments, not both.
 func (ch *channel) deriveAndSetBitrates() {
+	ch.mu.Lock()
+	defer ch.mu.Unlock()
 	for name, trd := range ch.trDatas {
 		if trd.init.Moov.Trak.Mdia.Minf.Stbl.Stsd.GetBtrt() == nil {
 			// Estimate bitrate from the segments available
@@ -523,6 +545,8 @@ func (ch *channel) deriveAndSetBitrates() {
 }
 
 func (ch *channel) deriveAndSetFrameRates(log *slog.Logger) {
+	ch.mu.Lock()
+	defer ch.mu.Unlock()
 	for name, trd := range ch.trDatas {
 		sdb, ok := ch.segTimesGen.segDataBuffers[name]
 		if trd.contentType != "video" {
